@@ -583,6 +583,7 @@ func TestRun(t *testing.T) {
 	serverInitiated(rec, vr.Scale(8, 80))
 	for _, kind := range []string{"tcp", "tls"} {
 		stallProbe(rec, kind, vr.Scale(4, 40), seed)
+		oversizeAnnouncer(rec, kind, vr.Scale(2, 20))
 	}
 	{
 		var kwg sync.WaitGroup
